@@ -187,13 +187,17 @@ func c17Status(p *pool, id peer.ID) (status, bool) {
 // ---------------------------------------------------------------------------------------------
 // progress watchdog
 
-// c17HangBound is the liveness bound: the operations driven here cost micro- to milliseconds, so
-// "no operation completed for c17HangBound while operations are outstanding" means no progress
+// c17Bound() is the liveness bound: the operations driven here cost micro- to milliseconds, so
+// "no operation completed for the bound while operations are outstanding" means no progress
 // (4-6 orders of magnitude above the cost of an operation), not slowness.
-var c17HangBound = 30 * time.Second
+var c17HangBoundNs atomic.Int64
+
+func init() { c17HangBoundNs.Store(int64(30 * time.Second)) }
+
+func c17Bound() time.Duration { return time.Duration(c17HangBoundNs.Load()) }
 
 // c17Watchdog watches begin/end pairs. If operations are outstanding and none completes for
-// c17HangBound it writes the description of the running case and a goroutine dump to
+// the bound it writes the description of the running case and a goroutine dump to
 // $VERIF_REPLAY_DIR, prints VERIF-VIOLATION and ends the process (a wedged goroutine cannot be
 // recovered, so neither shrinking nor further cases are possible).
 type c17Watchdog struct {
@@ -241,9 +245,9 @@ func (w *c17Watchdog) loop() {
 			lastChange = time.Now()
 			continue
 		}
-		if time.Since(lastChange) >= c17HangBound {
+		if time.Since(lastChange) >= c17Bound() {
 			c17ReportHang(w.name, fmt.Sprintf("%d operation(s) outstanding, none completed for %s (%d completed before)",
-				w.outstanding.Load(), c17HangBound, cur), w.describe.Load().(func() string)())
+				w.outstanding.Load(), c17Bound(), cur), w.describe.Load().(func() string)())
 		}
 	}
 }
@@ -287,7 +291,7 @@ func c17WaitNoGoroutine(fn string) int { return c17WaitGoroutines(fn, 0) }
 
 // c17WaitGoroutines waits until at most max goroutines run fn and returns the last count.
 func c17WaitGoroutines(fn string, max int) int {
-	deadline := time.Now().Add(c17HangBound)
+	deadline := time.Now().Add(c17Bound())
 	buf := make([]byte, 1<<20)
 	for i := 0; ; i++ {
 		n := runtime.Stack(buf, true)
@@ -331,7 +335,7 @@ func c17Recv(ch <-chan peer.ID) (peer.ID, bool) {
 		return id, true
 	default:
 	}
-	tm := time.NewTimer(c17HangBound)
+	tm := time.NewTimer(c17Bound())
 	defer tm.Stop()
 	select {
 	case id := <-ch:
